@@ -267,6 +267,9 @@ def run(rep, tier="quick", srcdir=None, only=None):
         rule_MP4(rep, prog, g)
     if want("C07-OD5"):
         rule_OD5(rep, prog, g)
+    if want("C07-FK"):
+        from .sync_common import rule_futex_key
+        rule_futex_key(rep, "C07", prog)
 
 
 MANIFEST = {
